@@ -94,7 +94,7 @@ def miri(seed, repo, log):
         if "error: Undefined Behavior" in se or "PROBLEM" in so:
             return {"status": "ran"}, [_violation("C01/miri-report", "Miri reported on the warm-up run: " + (se[-600:] or so[-600:]), None)]
         return {"status": "unavailable: cargo miri run failed to start: " + se[-300:]}, []
-    ops = 6
+    ops = 16
 
     def one(k):
         return _run(base + ["miniwork", str(ops), str(seed * 1000 + k)], env=env, timeout=3000)
@@ -192,13 +192,57 @@ def cachegrind(build, log):
     return info, vios
 
 
+def libfuzzer(build, repo, log, seconds=240):
+    """E8: coverage-guided fuzzing (libFuzzer + ASan) of `cosetmon::hostile::fuzz_one`: every entry point,
+    follow-ups (C01), one-step fixed point (C07), API-layer agreement and suffix rejection (C13)."""
+    if repo != "/repo":
+        return {"status": "skipped: the fuzz crate is wired to /repo"}, []
+    binp = build("release")
+    if binp is None:
+        return {"status": "unavailable"}, []
+    corpus = os.path.join(TARGET, "fuzz-corpus")
+    shutil.rmtree(corpus, ignore_errors=True)
+    rc, so, se = _run([binp, "corpus", corpus], timeout=300)
+    if rc != 0:
+        return {"status": "unavailable: corpus generation failed"}, []
+    arts = os.path.join(TARGET, "fuzz-artifacts")
+    shutil.rmtree(arts, ignore_errors=True)
+    os.makedirs(arts, exist_ok=True)
+    fdir = os.path.join(VERIF, "fuzz")
+    if not os.path.exists(os.path.join(fdir, "Cargo.lock")):
+        shutil.copy(os.path.join(HARNESS, "Cargo.lock"), os.path.join(fdir, "Cargo.lock"))
+    env = dict(ENV, CARGO_TARGET_DIR=os.path.join(TARGET, "fuzz"))
+    t0 = time.time()
+    rc, so, se = _run(["cargo", "+nightly", "fuzz", "build", "decode_all", "--fuzz-dir", fdir], env=env, timeout=1800)
+    if rc != 0:
+        return {"status": "unavailable: cargo fuzz build failed: " + se[-300:]}, []
+    rc, so, se = _run(["cargo", "+nightly", "fuzz", "run", "decode_all", "--fuzz-dir", fdir, corpus, "--",
+                       "-max_total_time=%d" % seconds, "-timeout=10", "-rss_limit_mb=4096", "-max_len=8192", "-fork=16",
+                       "-ignore_crashes=0", "-artifact_prefix=" + arts + "/"], env=env, timeout=seconds + 900)
+    stats = re.findall(r"#(\d+): cov: (\d+) ft: (\d+) corp: (\d+) exec/s: \d+ oom/timeout/crash: (\d+)/(\d+)/(\d+)", se)
+    info = {"status": "ran", "seconds": seconds, "wall_s": round(time.time() - t0, 1)}
+    if stats:
+        last = stats[-1]
+        info.update({"executions": int(last[0]), "decodes_per_execution": 31, "coverage_edges": int(last[1]), "features": int(last[2]), "corpus": int(last[3]), "oom": int(last[4]), "timeouts": int(last[5]), "crashes": int(last[6])})
+    vios = []
+    found = sorted(os.listdir(arts))
+    for a in found[:5]:
+        data = open(os.path.join(arts, a), "rb").read()
+        kind = a.split("-")[0]
+        if kind in ("crash", "timeout", "oom", "leak"):
+            prob = re.findall(r"PROBLEM (.*)", se)
+            vios.append(_violation("C01/libfuzzer-%s" % kind, "libFuzzer %s artifact %s (%d bytes): %s" % (kind, a, len(data), (prob[-1] if prob else se[-400:])[:600]), {"hex": data.hex()[:4000], "artifact": os.path.join(arts, a)}))
+    return info, vios
+
+
 def run(extra, seed, build, repo, log, only=None):
     engines = {}
     vios = []
     for name, fn in (("E5 AddressSanitizer+LeakSanitizer (asan)", lambda: asan(build, seed, log)),
                      ("E6 Miri", lambda: miri(seed, repo, log)),
                      ("E7 valgrind memcheck", lambda: memcheck(build, seed, log)),
-                     ("E7i cachegrind instruction counts", lambda: cachegrind(build, log))):
+                     ("E7i cachegrind instruction counts", lambda: cachegrind(build, log)),
+                     ("E8 libFuzzer + ASan (fuzz)", lambda: libfuzzer(build, repo, log))):
         if only and not any(o in name.lower() for o in only):
             continue
         t0 = time.time()
